@@ -150,7 +150,12 @@ package witness
 //@   ensures[C02.w,C12.w] err != nil ==> w == nil
 
 //@ func initMetrics$1
-//@   modifies counterUpdateAttempt, counterUpdateSuccess, counterInvalidConsistency, counterInconsistentCheckpoints
+//@   modifies counterUpdateAttempt, counterUpdateSuccess, counterInvalidConsistency, counterInconsistentCheckpoints, ctr_name, ctr_nlabels, ctr_label0
+//@   // each counter is exported under the name that says what Update counts with it, labelled by log ID only
+//@   ensures[C20.n] ctr_name[counterUpdateAttempt] == "witness_update_request" && ctr_name[counterUpdateSuccess] == "witness_update_success"
+//@   ensures[C20.n] ctr_name[counterInvalidConsistency] == "witness_update_invalid_consistency" && ctr_name[counterInconsistentCheckpoints] == "witness_update_inconsistent_checkpoints"
+//@   ensures[C20.n] ctr_nlabels[counterUpdateAttempt] == 1 && ctr_nlabels[counterUpdateSuccess] == 1 && ctr_nlabels[counterInvalidConsistency] == 1 && ctr_nlabels[counterInconsistentCheckpoints] == 1
+//@   ensures[C20.n] ctr_label0[counterUpdateAttempt] == "logid" && ctr_label0[counterUpdateSuccess] == "logid" && ctr_label0[counterInvalidConsistency] == "logid" && ctr_label0[counterInconsistentCheckpoints] == "logid"
 //@   // the four update counters are distinct, non-nil objects (precondition of Update's counter clauses)
 //@   ensures[C20.i] counterUpdateAttempt != nil && counterUpdateSuccess != nil && counterInvalidConsistency != nil && counterInconsistentCheckpoints != nil
 //@   ensures[C20.i] counterUpdateAttempt != counterUpdateSuccess && counterUpdateAttempt != counterInvalidConsistency && counterUpdateAttempt != counterInconsistentCheckpoints
